@@ -1,12 +1,130 @@
-/- Driver operations of property C04 (ops are named "c04.<name>"). Core + Lean.Data.Json only. -/
+/- Driver operations of property C04 (ops are named "c04.<name>"). Core + Lean.Data.Json only.
+Byte strings travel as lower-case hex text (two characters per byte). -/
 import Reamber.Util.Json
+import Reamber.Drv.Timing
+import Reamber.Model.BMS
+import Reamber.Spec.BMS
 
-open Lean Reamber.J
+open Lean Reamber.J Reamber.Timing
 
 namespace Reamber.C04
 
-def handle (op : String) (_j : Json) : Except String Json :=
+open Reamber.BMS
+
+def hexDigit (n : Nat) : Char := if n < 10 then Char.ofNat (48 + n) else Char.ofNat (87 + n)
+
+def hexOfBytes (b : Bytes) : String := String.ofList (b.flatMap (fun c => [hexDigit (c.toNat / 16 % 16), hexDigit (c.toNat % 16)]))
+
+def bytesOfHexAux : List Char → Except String Bytes
+  | [] => .ok []
+  | [_] => .error "odd hex length"
+  | a :: b :: t =>
+    match hexVal? a, hexVal? b with
+    | some x, some y => (bytesOfHexAux t).map (fun r => Char.ofNat (16 * x + y) :: r)
+    | _, _ => .error "bad hex digit"
+
+def bytesOf? (j : Json) : Except String Bytes := do bytesOfHexAux (← strOf? j).toList
+
+def bytesToJson (b : Bytes) : Json := Json.str (hexOfBytes b)
+
+def dictToJson {α} (f : α → Json) (d : Dict α) : Json := listToJson (fun p => Json.arr #[bytesToJson p.1, f p.2]) d
+
+def headerToJson (h : Header) : Json :=
+  obj [("title", optToJson bytesToJson h.title), ("artist", optToJson bytesToJson h.artist),
+       ("version", optToJson bytesToJson h.version), ("ln_end", bytesToJson h.lnEnd),
+       ("exbpms", dictToJson ratToJson h.exbpms), ("samples", dictToJson bytesToJson h.samples),
+       ("bpm0", ratToJson h.bpm0), ("misc", dictToJson bytesToJson h.misc)]
+
+def getLayout (j : Json) : Except String Layout := do
+  let n ← getStr j "layout"
+  match layoutOf n with
+  | some l => .ok l
+  | none => .error s!"unknown layout {n}"
+
+/-- smallest |tie margin| over the re-snapped tempo distances: a float evaluation may flip the snap there -/
+def resnapMargins (g : List Rat) : List BcSnap → List Rat
+  | a :: b :: rest =>
+    let r := frac (snapDist a.snap b.snap a.met)
+    (if g.contains r then [] else [rabs (tieMargin g r)]) ++ resnapMargins g (b :: rest)
+  | _ => []
+
+/-- re-deriving the tempo positions from their millisecond offsets gives the positions back: exactly the
+hypothesis `hst` of `bms_times_partial` (what `GridCompatible` is meant to guarantee), evaluated directly -/
+def resnapStable (g : Array Rat) (cs : List BcSnap) : Bool :=
+  match fromBcSnap 0 cs false with
+  | .error _ => false
+  | .ok tm =>
+    match bcsOfBco g tm with
+    | .error _ => false
+    | .ok (bco, bcs) => decide (bco = tm) && decide (bcs = cs)
+
+/-- every lane's objects appear in the file in non-decreasing position order -/
+def lanesOrdered (lay : Layout) (notes : List (Bytes × Bytes × Bytes)) : Bool :=
+  lay.lanes.all fun lane =>
+    match channelObjs notes lane.1 with
+    | none => true
+    | some os => sortObjs os == os
+
+/-- some lane holds an `#LNOBJ` object and is not in position order in the file (the predicate of D05) -/
+def d05Pred (lay : Layout) (lnobj : Bytes) (notes : List (Bytes × Bytes × Bytes)) : Bool :=
+  lay.lanes.any fun lane =>
+    match channelObjs notes lane.1 with
+    | none => false
+    | some os => os.any (fun o => o.id = lnobj) && !(sortObjs os == os)
+
+def chartToJson (lay : Layout) (lines : List Bytes) (c : Chart) : Json :=
+  let g := grid defaultMaxDiv
+  let notes := match parseDoc lines with | .ok d => d.notes | .error _ => []
+  obj [("header", headerToJson c.header),
+       ("hits", listToJson (fun h => Json.arr #[natToJson h.col, bytesToJson h.sample, ratToJson h.offset]) c.hits),
+       ("holds", listToJson (fun h => Json.arr #[natToJson h.col, bytesToJson h.sample, ratToJson h.offset, ratToJson h.length]) c.holds),
+       ("bpms", listToJson bcOffToJson c.bpms),
+       ("tempo", listToJson bcSnapToJson c.tempo),
+       ("grid_compatible", Json.bool (gridCompatible g c.tempo)),
+       ("resnap_stable", Json.bool (resnapStable defaultGrid c.tempo)),
+       ("resnap_margins", listToJson ratToJson (resnapMargins g c.tempo)),
+       ("lanes_ordered", Json.bool (lanesOrdered lay notes)),
+       ("d05", Json.bool (d05Pred lay c.header.lnEnd notes))]
+
+def denotationToJson (d : Denotation) : Json :=
+  obj [("header", headerToJson d.header),
+       ("tempo", listToJson bcSnapToJson d.tempo),
+       ("hits", listToJson (fun h => Json.arr #[natToJson h.col, bytesToJson h.sample, ratToJson h.offset]) d.hits),
+       ("holds", listToJson (fun h => Json.arr #[natToJson h.col, bytesToJson h.sample, ratToJson h.offset, ratToJson h.length]) d.holds)]
+
+def handle (op : String) (j : Json) : Except String Json := do
   match op with
+  | "c04.read" =>
+    let lay ← getLayout j
+    let lines ← getArr bytesOf? j "lines"
+    match read defaultGrid lay lines with
+    | .ok c => .ok (okJson (chartToJson lay lines c))
+    | .error e => .ok (errJson e.toString)
+  | "c04.denote" =>
+    let n ← getStr j "layout"
+    let lay ← match bookLayout n with
+      | some l => .ok l
+      | none => .error s!"unknown layout {n}"
+    let lines ← getArr bytesOf? j "lines"
+    let den := denote lay lines
+    let g := grid defaultMaxDiv
+    let notes := match parseDoc lines with | .ok d => d.notes | .error _ => []
+    let lnobj : Bytes := match parseDoc lines with
+      | .ok d => (dictGet? d.header "LNOBJ".toList).getD []
+      | .error _ => []
+    let tempo := match den with | some d => d.tempo | none => []
+    let flags := obj [("grid_compatible", Json.bool (gridCompatible g tempo)),
+                      ("resnap_margins", listToJson ratToJson (resnapMargins g tempo)),
+                      ("lanes_ordered", Json.bool (lanesOrdered lay notes)),
+                      ("d05", Json.bool (d05Pred lay lnobj notes))]
+    .ok (okJson (obj [("den", optToJson denotationToJson den), ("flags", flags)]))
+  | "c04.layout" =>
+    let n ← getStr j "layout"
+    let lay ← match bookLayout n with
+      | some l => .ok l
+      | none => .error s!"unknown layout {n}"
+    .ok (okJson (obj [("time_sig", bytesToJson lay.timeSig), ("bpm", bytesToJson lay.bpmCh), ("exbpm", bytesToJson lay.exbpmCh),
+                      ("lanes", listToJson (fun p => Json.arr #[bytesToJson p.1, natToJson p.2]) lay.lanes)]))
   | _ => .error s!"unknown op {op}"
 
 end Reamber.C04
